@@ -163,6 +163,8 @@ def drive(tier):
 def run(tier):
     rep = Report("C20", tier)
     rep.add_mc("MC_Bloom", vlib.run_mc("MC_Bloom", cfg="MC_Bloom" if tier == "quick" else "MC_Bloom_thorough"))
+    import replay_bloom
+    replay_bloom.replay(rep, tier)            # specification -> code: TLC's behaviours performed on the implementation
     recs, nsecond, ndiff = vlib.second_pass(drive, tier)
     rep.cov["second_pass_calls"], rep.cov["second_pass_differing"] = nsecond, ndiff
     for x in recs:
@@ -184,4 +186,8 @@ def run(tier):
 
 
 def replay(path):
+    d_ = json.load(open(path))
+    if d_["record"].get("op") == "bloom.replay":
+        import replay_bloom
+        return replay_bloom.replay_record(d_)
     return vlib.replay_file("Trace_Bloom", path)
